@@ -768,7 +768,7 @@ func (w *world) finish() {
 
 // ------------------------------------------------------------- generator
 
-const nProfiles = 7
+const nProfiles = 8
 
 // maxDump bounds the page-table dump of one event.
 const maxDump = 4000
@@ -812,6 +812,15 @@ func randomScenario(rng *rand.Rand, i int) *Scenario {
 	switch profile {
 	case 0, 3:
 		sc.Ctxs = []int{1}
+	case 7:
+		// long churn on small devices: two processes, 16/24-page GPUs, buffers of 1-6 pages allocated, freed and
+		// remapped (whole or in part, half of the time onto the device that already holds them)
+		sc.Ctxs = []int{1, 2}
+		sc.Gpus = []int{16, []int{16, 24}[rng.Intn(2)]}
+		if buddyMode {
+			sc.Gpus = []int{16, 16}
+		}
+		sc.Unified = nil
 	case 6:
 		// two processes with adjacent pids whose virtual cursors cross 2^31, 2^32 or 2^33 bytes
 		sc.Ctxs = []int{1, 2}
@@ -853,6 +862,30 @@ func (w *world) randomOp(rng *rand.Rand, profile int) Op {
 		}
 	}
 	r := rng.Intn(100)
+	if profile == 7 {
+		b := pickBuf()
+		switch {
+		case r < 36 || b == 0:
+			return Op{A: "Alloc", Ctx: ctx, Dev: gpus[rng.Intn(len(gpus))], N: 1 + rng.Intn(6), Rem: rng.Intn(3)}
+		case r < 64:
+			return Op{A: "Free", Ctx: ctx, B: b}
+		case r < 94:
+			pages := w.bufs[b-1].pages
+			off := rng.Intn(pages)
+			n := 1 + rng.Intn(pages-off)
+			dev := gpus[rng.Intn(len(gpus))]
+			if rng.Intn(2) == 0 { // the device the first page of the range is on
+				if pg, ok := w.find(w.sc.Ctxs[w.bufs[b-1].ctx], w.bufs[b-1].ptr+uint64(off)*w.psz); ok {
+					if d := w.devOfPage(pg.PAddr / w.psz); d >= 1 {
+						dev = d
+					}
+				}
+			}
+			return Op{A: "Remap", Ctx: ctx, B: b, Off: off, N: n, Rem: rng.Intn(3), Dev: dev}
+		default:
+			return Op{A: "Dist", Ctx: ctx, B: b, Gpus: []int{gpus[r%2], gpus[1-r%2]}}
+		}
+	}
 	if buddyMode && profile == 6 {
 		// multi-page buddy blocks: buffers of 2-4 pages remapped as a whole or in part, distributed in equal
 		// chunks, freed, remapped again, next to live neighbours
@@ -984,6 +1017,9 @@ func runRandom(rec *ab.Recorder, rng *rand.Rand, i, nops int, stats map[string]i
 				w.do(op)
 			}
 		}
+	}
+	if profile == 7 && nops < 200 {
+		nops = 200
 	}
 	for k := 0; k < nops && !w.dead; k++ {
 		var op Op
